@@ -20,6 +20,27 @@
 #include "qlibc.h"
 #include <stddef.h>
 
+/* the name handed out by getnext: `namesize` bytes (+ a NUL where the block has room for it). Under ASan
+ * the block is tested before it is read: a block shorter than the reported size is a statement in the
+ * transcript (`!short-name-block:<have>/<namesize>`), not a dead harness. Returns the bytes to keep. */
+#if defined(__SANITIZE_ADDRESS__)
+#include <sanitizer/asan_interface.h>
+#define NAME_POISON(p, n) ((const char *) __asan_region_is_poisoned((void *) (p), (n)))
+#else
+#define NAME_POISON(p, n) ((const char *) NULL)
+#endif
+static size_t put_name(const char *name, size_t namesize) {
+    const char *bad = NAME_POISON(name, namesize);
+    if (bad) {
+        size_t have = (size_t) (bad - name);
+        puthex(stdout, name, have);
+        printf("!short-name-block:%zu/%zu", have, namesize);
+        return have;
+    }
+    puthex(stdout, name, namesize);
+    return NAME_POISON(name + namesize, 1) ? namesize : namesize + 1;
+}
+
 typedef struct { void *p; void *dup; size_t n; } kept_t;
 static kept_t *kept; static size_t nkept, capkept;
 static void keep(void *p, size_t n) {
@@ -188,17 +209,17 @@ int main(void) {
             bool ok = tbl->getnext(tbl, &obj, &idx);
             int e = errno; long a = aw_end();
             if (ok) {
-                printf("allocs=%ld obj %d ", a, idx); puthex(stdout, obj.name, obj.namesize); printf(" ");
+                printf("allocs=%ld obj %d ", a, idx); size_t nk = put_name(obj.name, obj.namesize); printf(" ");
                 puthex(stdout, obj.data, obj.datasize);
-                keep(obj.name, obj.namesize + 1); keep(obj.data, obj.datasize);
+                keep(obj.name, nk); keep(obj.data, obj.datasize);
             } else if (e == ENOMEM) printf("allocs=%ld false %d ENOMEM", a, idx);
             else printf("allocs=%ld end %d %s", a, idx, errname(e));
         } else if (!strcmp(op, "walk") && nw == 1) {
             int idx = 0; qhasharr_obj_t obj;
             printf("walk");
             while (tbl->getnext(tbl, &obj, &idx)) {
-                printf(" %d:", idx - 1); puthex(stdout, obj.name, obj.namesize); printf("="); puthex(stdout, obj.data, obj.datasize);
-                keep(obj.name, obj.namesize + 1); keep(obj.data, obj.datasize);
+                printf(" %d:", idx - 1); size_t nk = put_name(obj.name, obj.namesize); printf("="); puthex(stdout, obj.data, obj.datasize);
+                keep(obj.name, nk); keep(obj.data, obj.datasize);
             }
         } else { printf("bad-op\n"); continue; }
         tail(unchanged()); printf("\n");
